@@ -659,6 +659,15 @@ def parse_mir(text):
             f = Fn(name, h, body, start + 1)
             fns.setdefault(name, f)
             order.append(f)
+        elif ln.startswith('const ') and ln.endswith(';'):
+            # one-line form of a trivially evaluated constant: `const NAME: T = const VALUE;`
+            m = re.match(r'^const (\S+): (.+?) = (const .+);$', ln)
+            if m:
+                h = 'const %s: %s = {' % (m.group(1), m.group(2))
+                body = ['    let mut _0: %s;' % m.group(2), '    bb0: {', '        _0 = %s;' % m.group(3), '        return;', '    }']
+                f = Fn(m.group(1), h, body, i + 1)
+                fns.setdefault(m.group(1), f)
+                order.append(f)
         i += 1
     return fns, order
 
